@@ -50,6 +50,11 @@ pub mod c15 {
     scope_raw!(q_scope_raw_58, 58, 1, false, 84);
     scope_raw!(q_scope_raw_59, 59, 1, false, 84);
     scope_raw!(q_scope_raw_60, 60, 1, false, 84);
+    // three-segment names (MultiNamePrefix + SegCount): name = 14 bytes, 15 rooted; the one-byte
+    // PkgLength holds while 1 + 15 + n <= 63
+    scope_raw!(q_scope_raw_3seg_4, 4, 3, false, 40);
+    scope_raw!(q_scope_raw_3seg_rooted_47, 47, 3, true, 90);
+    scope_raw!(q_scope_raw_3seg_rooted_48, 48, 3, true, 90);
     scope_raw!(t_scope_raw_2, 2, 1, false, 30);
     scope_raw!(t_scope_raw_16, 16, 2, false, 48);
     scope_raw!(t_scope_raw_48_2seg, 48, 2, true, 84);
